@@ -207,6 +207,12 @@ func (g *graphMemoizer) Objects(ctx context.Context, s *node.Node, p *predicate.
 	for o := range c {
 		select {
 		case <-ctx.Done():
+			// Let the wrapped lookup finish: it blocks sending to c (holding
+			// the driver's resources) until somebody reads what is left.
+			go func() {
+				for range c {
+				}
+			}()
 			return errors.New("context cancelled")
 		case objs <- o:
 			// memoize the object.
@@ -276,6 +282,12 @@ func (g *graphMemoizer) Subjects(ctx context.Context, p *predicate.Predicate, o 
 	for s := range c {
 		select {
 		case <-ctx.Done():
+			// Let the wrapped lookup finish: it blocks sending to c (holding
+			// the driver's resources) until somebody reads what is left.
+			go func() {
+				for range c {
+				}
+			}()
 			return errors.New("context cancelled")
 		case subs <- s:
 			// memoize the object.
@@ -335,6 +347,12 @@ func (g *graphMemoizer) PredicatesForSubject(ctx context.Context, s *node.Node, 
 	for p := range c {
 		select {
 		case <-ctx.Done():
+			// Let the wrapped lookup finish: it blocks sending to c (holding
+			// the driver's resources) until somebody reads what is left.
+			go func() {
+				for range c {
+				}
+			}()
 			return errors.New("context cancelled")
 		case prds <- p:
 			// memoize the object.
@@ -394,6 +412,12 @@ func (g *graphMemoizer) PredicatesForObject(ctx context.Context, o *triple.Objec
 	for p := range c {
 		select {
 		case <-ctx.Done():
+			// Let the wrapped lookup finish: it blocks sending to c (holding
+			// the driver's resources) until somebody reads what is left.
+			go func() {
+				for range c {
+				}
+			}()
 			return errors.New("context cancelled")
 		case prds <- p:
 			// memoize the object.
@@ -453,6 +477,12 @@ func (g *graphMemoizer) PredicatesForSubjectAndObject(ctx context.Context, s *no
 	for p := range c {
 		select {
 		case <-ctx.Done():
+			// Let the wrapped lookup finish: it blocks sending to c (holding
+			// the driver's resources) until somebody reads what is left.
+			go func() {
+				for range c {
+				}
+			}()
 			return errors.New("context cancelled")
 		case prds <- p:
 			// memoize the object.
@@ -512,6 +542,12 @@ func (g *graphMemoizer) TriplesForSubject(ctx context.Context, s *node.Node, lo 
 	for t := range c {
 		select {
 		case <-ctx.Done():
+			// Let the wrapped lookup finish: it blocks sending to c (holding
+			// the driver's resources) until somebody reads what is left.
+			go func() {
+				for range c {
+				}
+			}()
 			return errors.New("context cancelled")
 		case trpls <- t:
 			// memoize the object.
@@ -571,6 +607,12 @@ func (g *graphMemoizer) TriplesForPredicate(ctx context.Context, p *predicate.Pr
 	for t := range c {
 		select {
 		case <-ctx.Done():
+			// Let the wrapped lookup finish: it blocks sending to c (holding
+			// the driver's resources) until somebody reads what is left.
+			go func() {
+				for range c {
+				}
+			}()
 			return errors.New("context cancelled")
 		case trpls <- t:
 			// memoize the object.
@@ -630,6 +672,12 @@ func (g *graphMemoizer) TriplesForObject(ctx context.Context, o *triple.Object, 
 	for t := range c {
 		select {
 		case <-ctx.Done():
+			// Let the wrapped lookup finish: it blocks sending to c (holding
+			// the driver's resources) until somebody reads what is left.
+			go func() {
+				for range c {
+				}
+			}()
 			return errors.New("context cancelled")
 		case trpls <- t:
 			// memoize the object.
@@ -689,6 +737,12 @@ func (g *graphMemoizer) TriplesForSubjectAndPredicate(ctx context.Context, s *no
 	for t := range c {
 		select {
 		case <-ctx.Done():
+			// Let the wrapped lookup finish: it blocks sending to c (holding
+			// the driver's resources) until somebody reads what is left.
+			go func() {
+				for range c {
+				}
+			}()
 			return errors.New("context cancelled")
 		case trpls <- t:
 			// memoize the object.
@@ -748,6 +802,12 @@ func (g *graphMemoizer) TriplesForPredicateAndObject(ctx context.Context, p *pre
 	for t := range c {
 		select {
 		case <-ctx.Done():
+			// Let the wrapped lookup finish: it blocks sending to c (holding
+			// the driver's resources) until somebody reads what is left.
+			go func() {
+				for range c {
+				}
+			}()
 			return errors.New("context cancelled")
 		case trpls <- t:
 			// memoize the object.
@@ -822,6 +882,12 @@ func (g *graphMemoizer) Triples(ctx context.Context, lo *storage.LookupOptions, 
 	for t := range c {
 		select {
 		case <-ctx.Done():
+			// Let the wrapped lookup finish: it blocks sending to c (holding
+			// the driver's resources) until somebody reads what is left.
+			go func() {
+				for range c {
+				}
+			}()
 			return errors.New("context cancelled")
 		case trpls <- t:
 			// memoize the object.
